@@ -120,6 +120,8 @@ def _wanted(prop, kn):
         return bool(kn.fd.reduced_coefficients or kn.fd.original_form.constants())
     if prop == "C09":
         return np.issubdtype(np.dtype(kn.options["scalar_type"]), np.complexfloating)
+    if prop == "C06":  # the kernel listed under (type, id) adds the sum of the integrands declared for that id
+        return len(kn.itg.integrals) > 1 or tuple(kn.itg.subdomain_id) != ("otherwise",)
     if prop == "C10":
         return bool(kn.options.get("sum_factorization"))
     if prop == "C11":
